@@ -539,11 +539,18 @@ pub struct PrintOpts {
    /// write the default provider out on plain relations (`#[ds(ascent::rel)] relation r(..);`)
    #[serde(default)]
    pub explicit_default_ds: bool,
+   /// the provider of the BYODS relations comes from a program-wide `#![ds(..)]` (listed in `attrs`), not from an
+   /// attribute on the relation
+   #[serde(default)]
+   pub program_ds: bool,
+   /// another attribute in front of the `#[ds(..)]` of a BYODS relation (`#[doc = ".."] #[ds(..)] relation r(..)`)
+   #[serde(default)]
+   pub doc_before_ds: bool,
 }
 
 impl PrintOpts {
    pub fn plain(kind: Kind) -> Self {
-      PrintOpts { kind, attrs: vec![], generic: false, include_cut: None, init_rels: vec![], redeclare: vec![], redeclare_noinit: vec![], explicit_default_ds: false }
+      PrintOpts { kind, attrs: vec![], generic: false, include_cut: None, init_rels: vec![], redeclare: vec![], redeclare_noinit: vec![], explicit_default_ds: false, program_ds: false, doc_before_ds: false }
    }
    pub fn has_attr(&self, a: &str) -> bool { self.attrs.iter().any(|x| x == a) }
 }
@@ -561,6 +568,20 @@ pub fn program_items_opts(prog: &Program, opts: Option<&PrintOpts>) -> Vec<Strin
       if explicit {
          for it in items[before..].iter_mut() {
             *it = format!("#[ds(ascent::rel)] {it}");
+         }
+      }
+      if opts.map_or(false, |o| o.doc_before_ds && !o.program_ds) && r.ds.is_some() {
+         for it in items[before..].iter_mut() {
+            *it = format!("#[doc = \"tagged relation\"] {it}");
+         }
+      }
+      if opts.map_or(false, |o| o.program_ds) && r.ds.is_some() {
+         for it in items[before..].iter_mut() {
+            if let Some(end) = it.find(")] ") {
+               if it.starts_with("#[ds(") {
+                  *it = it[end + 3..].to_string();
+               }
+            }
          }
       }
    }
@@ -850,7 +871,7 @@ fn serde_json_lite(opts: &PrintOpts) -> String {
    // PrintOpts only holds strings, booleans and small integers; rendered by hand to keep vcore free of serde_json
    let strs = |v: &Vec<String>| format!("[{}]", v.iter().map(|s| format!("{s:?}")).collect::<Vec<_>>().join(","));
    format!(
-      "{{\"kind\":\"{:?}\",\"attrs\":{},\"generic\":{},\"include_cut\":{},\"init_rels\":{},\"redeclare\":{},\"redeclare_noinit\":{},\"explicit_default_ds\":{}}}",
+      "{{\"kind\":\"{:?}\",\"attrs\":{},\"generic\":{},\"include_cut\":{},\"init_rels\":{},\"redeclare\":{},\"redeclare_noinit\":{},\"explicit_default_ds\":{},\"program_ds\":{},\"doc_before_ds\":{}}}",
       opts.kind,
       strs(&opts.attrs),
       opts.generic,
@@ -861,6 +882,8 @@ fn serde_json_lite(opts: &PrintOpts) -> String {
       strs(&opts.init_rels),
       strs(&opts.redeclare),
       strs(&opts.redeclare_noinit),
-      opts.explicit_default_ds
+      opts.explicit_default_ds,
+      opts.program_ds,
+      opts.doc_before_ds
    )
 }
